@@ -220,8 +220,8 @@ func SignHashed(rand io.Reader, priv, e []byte) (r, s []byte, err error) {
 			return
 		}
 
-		var eInt, rInt, sInt, rkInt, dInt, d1Int big.Int
-		var d1, d1Inv fiat.SM2ScalarElement
+		var eInt, rInt big.Int
+		var rS, kS, rkS, dS, d1, d1Inv, sS fiat.SM2ScalarElement
 
 		x := kG.GetAffineX() // 避免计算y坐标，可以节约计算量。x不需要保密，但z依赖于k：用扩展欧几里德算法求z的逆会通过运行时间泄露z（进而泄露k的信息），因此使用常数时间版本
 
@@ -234,40 +234,38 @@ func SignHashed(rand io.Reader, priv, e []byte) (r, s []byte, err error) {
 			continue
 		}
 
-		var k big.Int
-		k.SetBytes(K[:])
+		// r is public (it is half of the signature); k and priv are not: everything that involves them is computed
+		// on constant-time scalar elements, never in math/big (variable time, operand-length dependent)
+		rBytes := ensure32Bytes(&rInt)
+		rS.SetBytes(rBytes)
+		kS.SetBytes(K[:]) // k lies in [1, n-1], checked above
 
-		rkInt.Add(&rInt, &k)
-		// 标准要求排除的第二种情形
-		rkBytes := rkInt.Bytes()
-		if len(rkBytes) == 32 && utils.ConstantTimeCmp(rkBytes, nBytes, 32) == 0 {
+		rkS.Add(&rS, &kS)
+		// 标准要求排除的第二种情形: r + k = n, that is r + k = 0 (mod n), as r and k both lie in [1, n-1]
+		if rkS.IsZero() == 1 {
 			continue
 		}
 
-		dInt.SetBytes(priv)
-		d1Int.Add(&dInt, one)
-
 		//SM2ScalarElement.SetBytes要求长度为32，因此，如果私钥实际长度短于32字节（标准不排除此种情形），左边补零（标准规定使用大端字节序）
-		d1Bytes := d1Int.Bytes()
 		var buf [32]byte
-		copy(buf[32-len(d1Bytes):], d1Bytes)
+		copy(buf[32-len(priv):], priv)
 
-		d1.SetBytes(buf[:]) // priv = n - 1 已经被排除，因此不会导致 d1 = 0. 编译器告警此处可忽略，因私钥的范围已经在一开始就检查过了
-		d1Inv.Invert(&d1)   // **常数时间**算法 constant time inversion here, about 10% performance hit
+		dS.SetBytes(buf[:]) // priv 的范围已经在一开始就检查过了
+		d1.Add(&dS, new(fiat.SM2ScalarElement).One()) // priv = n - 1 已经被排除，因此不会导致 d1 = 0
+		d1Inv.Invert(&d1) // **常数时间**算法 constant time inversion here, about 10% performance hit
 
 		// 标准要求计算  (k - r * priv) / (1 + priv)
 		// 这等价于 (k + r) / (1 + priv) - r
 		// 后者可以节约一次乘法
-		sInt.Mul(&rkInt, d1Inv.ToBigInt())
-		sInt.Sub(&sInt, &rInt)
-		sInt.Mod(&sInt, n)
+		sS.Mul(&rkS, &d1Inv)
+		sS.Sub(&sS, &rS)
 
-		if sInt.Sign() == 0 {
+		if sS.IsZero() == 1 {
 			continue
 		}
 
-		// 注意，标准要求使用大端字节序，因此，如果输出结果高位字节为0，big.Int.Bytes_Unsafe()将输出少于32字节
-		return ensure32Bytes(&rInt), ensure32Bytes(&sInt), nil
+		// 注意，标准要求使用大端字节序，r、s 各32字节
+		return rBytes, sS.Bytes(), nil
 	}
 }
 
